@@ -11,6 +11,7 @@ import (
 func varFamily(name string, lists []gen.List, gover string) *FamilySpec {
 	fs := &FamilySpec{Name: name, Reductions: reductionsOf}
 	fs.Template.GoVer = gover
+	fs.Template.SExtra, fs.Template.RExtra = gen.VarSExtra, gen.VarRExtra
 	for _, l := range lists {
 		id := fmt.Sprintf("P%05d", len(fs.Progs))
 		fs.Progs = append(fs.Progs, pipeline.Prog{ID: id, Key: gen.Show(l), S: gen.VAR.PrintVarGen(id, l, false), R: gen.VAR.PrintVarGen(id, l, true)})
@@ -68,6 +69,11 @@ var VarCorpus = []string{
 	"[SwShadow[MkGet YX Upd][YX] CallGet]",
 	"[TySwShadow[MkClo YX CallClo] EX]",
 	"[IfInit[MkGet YX Upd][Upd YX] CallGet]",
+	"[RangeIter[MkGet Decl2 CallGet YX]]", // re-declaration next to a new name must shadow, not assign
+	"[RangeIter[MkPtr Decl2 CallGet] YX]",
+	"[RangeIter[YX MkClo Decl2 CallClo EX]]",
+	"[RangeIter[Decl YX] EX]",
+	"[Block[MkGet Decl2 YX CallGet]]",
 }
 
 // capturesLoopVar: a closure is created inside a loop that declares its own x.
@@ -76,7 +82,7 @@ func capturesLoopVar(l gen.List, inLoop bool) bool {
 		if inLoop && (s.K == "MkGet" || s.K == "MkClo") {
 			return true
 		}
-		in := inLoop || s.K == "ForShadow" || s.K == "RangeDef"
+		in := inLoop || s.K == "ForShadow" || s.K == "RangeDef" || s.K == "RangeIter"
 		for _, ch := range s.Ch {
 			if capturesLoopVar(ch, in) {
 				return true
